@@ -89,7 +89,7 @@ type c18Case struct {
 	Desc     string   `json:"description"`
 }
 
-var c18Scenarios = []string{"plain", "prefix", "alias=last-element", "alias=real-name", "importname", "anon-then-ref", "dict-value"}
+var c18Scenarios = []string{"plain", "prefix", "alias=last-element", "alias=real-name", "importname", "anon-then-ref", "dict-value", "file-path-ends-in-package-path", "file-path-is-last-element"}
 
 func lastElem(p string) string {
 	p = strings.TrimSuffix(p, "/")
@@ -107,9 +107,23 @@ func c18World(names map[string]string, paths []string, scenario string) *imp.Wor
 		}
 		return "zzunknown"
 	}
-	w := imp.New("NewFile", "", tn)
+	var w *imp.World
+	switch scenario {
+	case "file-path-ends-in-package-path":
+		w = imp.New("NewFilePath", "example.com/app/internal/"+paths[0], tn)
+	case "file-path-is-last-element":
+		local := lastElem(paths[0])
+		if local == paths[0] {
+			local = "x/" + local // a one-element path IS its last element: use a different near miss
+		}
+		w = imp.New("NewFilePathName", local, tn)
+	default:
+		w = imp.New("NewFile", "", tn)
+	}
 	wrapper := 0
 	switch scenario {
+	case "second-aliased-to-name-of-first":
+		w.Alias(paths[1], names[paths[0]])
 	case "prefix":
 		w.Prefix("pkg")
 	case "alias=last-element":
@@ -218,8 +232,8 @@ func runC18(r *ev.Recorder) {
 		}
 	}
 	r.Rule = "every package directory below <GOROOT>/src of the installed toolchain (outside cmd, vendor, testdata; package name = the name its non-test files declare, parsed with go/parser), " +
-		"(a) alone under 7 scenarios (plain, PackagePrefix, ImportAlias = last path element, ImportAlias = real name, truthful ImportName, Anon then reference, Anon then reference inside a Dict value); " +
-		"(b) every ordered pair of packages, plain and with prefix (pairs that share a declared or guessed name - thorough: all pairs - also inside a Dict after Anon, with aliases, and Anon then reference); " +
+		"(a) alone under 9 scenarios (plain, PackagePrefix, ImportAlias = last path element, ImportAlias = real name, truthful ImportName, Anon then reference, Anon then reference inside a Dict value, in a File whose own package path ends in the package path, in a File whose own path is the last element); " +
+		"(b) every ordered pair of packages, plain, with prefix, and with the second aliased to the name of the first (pairs that share a declared or guessed name - thorough: all pairs - also inside a Dict after Anon, with aliases, and Anon then reference); " +
 		"oracle on the parsed output: the spec of the path has no alias and the qualifier is the declared name, or has an alias equal to the qualifier; names unique; go/types resolves every reference against a fabricated importer declaring the parsed names. " +
 		"(c) the repository's gennames tool is built and run (-standard -novendor) and every entry of the table it writes must equal the parsed name of that directory. " +
 		"distinct_nontrivial = distinct (path set, scenario) cases in which some package's declared name differs from its last path element or two packages compete for a name"
@@ -274,6 +288,7 @@ func runC18(r *ev.Recorder) {
 			ps := []string{pairs[i][0], pairs[i][1]}
 			one(ps, "plain")
 			one(ps, "prefix")
+			one(ps, "second-aliased-to-name-of-first")
 			if names[ps[0]] == names[ps[1]] || guessKey(ps[0]) == guessKey(ps[1]) || names[ps[0]] == guessKey(ps[1]) || names[ps[1]] == guessKey(ps[0]) || r.Tier == ev.Thorough {
 				one(ps, "dict-value")
 				one(ps, "alias=last-element")
